@@ -89,8 +89,8 @@ func contractMentions(c *Contract, id string) bool {
 }
 
 func (e *Engine) unitRelevant(u *Unit, id string) bool {
-	if id == "C01" {
-		return true
+	if id == "C01" || id == "C06" {
+		return true // safety and "no undeclared external" obligations exist in every unit
 	}
 	if contractMentions(u.Own, id) || contractMentions(u.FType, id) {
 		return true
@@ -169,6 +169,7 @@ func cmdCheck(eng *Engine, args []string) int {
 	os.MkdirAll(replayDir, 0o755)
 
 	nOb, nOK, nViol := 0, 0, 0
+	externSites := 0
 	byBackend := map[string]int{}
 	solverTime := 0.0
 	assumed := map[string]bool{}
@@ -204,10 +205,11 @@ func cmdCheck(eng *Engine, args []string) int {
 			violation(u.Name+"/unsupported", "function is outside the verifier's Go subset, its obligations are undecided:\n"+u.Unsupp+"\n", true)
 			continue
 		}
-		if tagged == 0 {
+		if tagged == 0 && id != "C06" {
 			continue
 		}
 		fnNames = append(fnNames, u.Name)
+		externSites += u.ExternSites
 		for _, a := range u.Assumed {
 			assumed[a] = true
 		}
@@ -276,8 +278,14 @@ func cmdCheck(eng *Engine, args []string) int {
 		}
 	}
 	// finite-domain obligations (complete evaluation of the real code)
-	for _, r := range append(eng.finiteDomain(id, tmp), eng.confinedChecks(id)...) {
+	for _, r := range append(append(eng.finiteDomain(id, tmp), eng.confinedChecks(id)...), eng.mapOrderChecks(id)...) {
 		nOb++
+		if r.OK && strings.Contains(r.Goal, "[ASSUMED by maporder declaration") {
+			// not proved: an explicit assumption of the contract files
+			nOb--
+			assumed["MAPORDER "+r.Name+": "+r.Goal] = true
+			continue
+		}
 		if r.OK {
 			nOK++
 			if strings.Contains(r.Name, "/finite-domain/") {
@@ -304,7 +312,11 @@ func cmdCheck(eng *Engine, args []string) int {
 	sort.Strings(fnNames)
 	var as []string
 	for a := range assumed {
-		if strings.HasPrefix(a, "FTYPE ") {
+		if strings.HasPrefix(a, "TRUSTED ") {
+			as = append(as, "contract of "+a[8:]+" is assumed at its call sites; its body is NOT verified (attr trusted)")
+		} else if strings.HasPrefix(a, "MAPORDER ") {
+			as = append(as, "map range assumed order-insensitive (not decided mechanically): "+a[9:])
+		} else if strings.HasPrefix(a, "FTYPE ") {
 			as = append(as, a[6:])
 		} else if strings.HasPrefix(a, "AXIOM ") {
 			as = append(as, "definitional axiom of an abstract predicate, "+strings.TrimSpace(a[6:]))
@@ -342,6 +354,7 @@ func cmdCheck(eng *Engine, args []string) int {
 			"contract_files":           eng.specs.Files,
 			"assume_clauses":           eng.specs.NAssume,
 			"extern_entries":           len(eng.specs.Externs),
+			"external_call_sites_with_declared_contract": externSites,
 			"integers":                 "mathematical Int with exact wrap-around for + - ++ -- and constant *; shifts/bit operations uninterpreted",
 			"explanation":              expl,
 		}}
